@@ -31,7 +31,9 @@ ALPHABETS = {
 }
 
 UNARY = [("list", "list[{}]"), ("set", "set[{}]"), ("Optional", "typing.Optional[{}]"), ("xSeq", "x.Seq[{}]"),
-         ("Annotated", "Annotated[{}, 'm|n']")]
+         ("Annotated", "Annotated[{}, 'm|n']"),
+         # metadata given as a call with KEYWORD arguments (pydantic / msgspec style): the keywords are rewritten like any sub-expression
+         ("AnnKw", "Annotated[int, Meta(1, alias={}, n=1)]")]
 BINARY = [("bitor", "{} | {}"), ("parbitor", "({}) | ({})"), ("dict", "dict[{}, {}]"), ("tuple", "tuple[{}, {}]"),
           ("Callable", "Callable[[{}], {}]")]
 NU, NB = len(UNARY), len(BINARY)
